@@ -152,6 +152,9 @@ pub fn generate(sink: &mut Sink, rng: &mut Rng, n: u64) {
             let mut g = lang::Gen::new(rng);
             g.program()
         };
+        if crate::typed::risky_alloc(&src) {
+            continue;
+        }
         let k = 1 + rng.below(2);
         let cfg: Vec<String> = (0..k)
             .map(|_| {
